@@ -1204,3 +1204,24 @@ Proof.
     reflexivity.
 Qed.
 Print Assumptions tie_action_ports.
+
+(* ================================================================ default argument values
+   (what a caller gets who leaves the argument out; the model's `None` granularity / data_width is this VNone) *)
+Theorem tie_defaults :
+  gen_event_Source_Signature_default_trigger = ERaw (RStr "level") /\
+  gen_event_Source_default_trigger = ERaw (RStr "level") /\
+  gen_event_Monitor_default_trigger = ERaw (RStr "level") /\
+  gen_csr_event_EventMonitor_default_trigger = ERaw (RStr "level") /\
+  trg_arg (ERaw (RStr "level")) = Some TLevel /\
+  gen_wishbone_Signature_default_granularity = VNone /\ gen_wishbone_Signature_default_features = [] /\
+  gen_wishbone_Interface_default_granularity = VNone /\ gen_wishbone_Interface_default_features = [] /\
+  gen_wishbone_Decoder_default_granularity = VNone /\ gen_wishbone_Decoder_default_features = [] /\
+  gen_wishbone_Arbiter_default_granularity = VNone /\ gen_wishbone_Arbiter_default_features = [] /\
+  gen_wishbone_sram_WishboneSRAM_default_granularity = VNone /\
+  gen_csr_wishbone_WishboneCSRBridge_default_data_width = VNone /\
+  gen_memory_MemoryMap_default_alignment = VInt 0 /\ gen_csr_Decoder_default_alignment = VInt 0 /\
+  gen_wishbone_Decoder_default_alignment = VInt 0 /\ gen_csr_event_EventMonitor_default_alignment = VInt 0 /\
+  gen_csr_Builder_default_granularity = VInt 8 /\ gen_gpio_Peripheral_default_input_stages = VInt 2 /\
+  gen_csr_FieldAction_default_members = [].
+Proof. repeat split; reflexivity. Qed.
+Print Assumptions tie_defaults.
